@@ -132,6 +132,11 @@ func BuildHistory(evs []Ev, ex int) *History {
 	closeOutcome := func(depth int, e *Ev) {
 		// the next step at `depth` reveals the outcome of the attempt opened at that depth
 		if a := lastStepAt[depth]; a != nil {
+			if a.Frame == nil && snapSeq == a.StepSeq {
+				// refused before entry: its scope must not be inherited by a later frame
+				// (e.g. the pseudo-frame of a following SELFDESTRUCT)
+				snapSeq = -1
+			}
 			if e.K == evFault && e.PC == a.pcOf() {
 				// the instruction itself faulted before issuing the call: not an attempt
 				a.cancel(h)
@@ -196,7 +201,12 @@ func BuildHistory(evs []Ev, ex int) *History {
 			if e.Name == "jpoff" {
 				f.JPOn = false
 			}
-			snapSeq = -1
+			if e.Typ == 0xff && e.K == evEnter {
+				// the balance-sweep pseudo-frame of SELFDESTRUCT opens no rollback scope
+				f.SnapSeq = -1
+			} else {
+				snapSeq = -1
+			}
 			if e.K == evStart {
 				if e.Create {
 					f.Typ = 0xf0
@@ -336,6 +346,7 @@ func BuildHistory(evs []Ev, ex int) *History {
 			}
 		case evAspectExit:
 			aspectDepth--
+			snapSeq = -1 // a host call refused before entry leaves no scope behind
 			if len(stack) > 0 {
 				f := stack[len(stack)-1]
 				f.AspOut = append(f.AspOut, e)
